@@ -170,4 +170,149 @@ theorem opModpow_repr : OpRepr true opModpow := opRepr_of_eq fun flags m a a' c 
   · rw [h1, h2]
   · rw [h1, h2]; simp only [intAtom_req hx, intAtom_req hy, intAtom_req hz]
 
+/-! ### unknown operators -/
+
+theorem unknownArith_req (nm : Bool) (maxCost : Nat) {l l' : List Val} (h : ListReq l l') (cost accSize : Nat) :
+    unknownArith nm maxCost l cost accSize = unknownArith nm maxCost l' cost accSize := by
+  induction h generalizing cost accSize with
+  | nil => rfl
+  | cons hx _ ih => simp only [unknownArith, atomLen_req hx, ih]
+
+set_option maxRecDepth 8000 in
+/-- unfolding equation (the generated one exceeds the default recursion depth) -/
+theorem unknownMul_cons (nm : Bool) (maxCost : Nat) (sqDiv : Nat) (arg : Val) (rest : List Val)
+    (cost l0 : Nat) (firstIter : Bool) :
+    unknownMul nm maxCost sqDiv (arg :: rest) cost l0 firstIter =
+    match atomLen arg "unknown op" with
+    | .error e => .error e
+    | .ok len =>
+      if firstIter then
+        if nm then
+          match ckMul len Gen.MUL_LINEAR_COST_PER_BYTE with
+          | .error e => .error e
+          | .ok m =>
+            match ckAdd cost m with
+            | .error e => .error e
+            | .ok cost1 =>
+              match checkCost cost1 maxCost with
+              | .error e => .error e
+              | .ok () => unknownMul nm maxCost sqDiv rest cost1 len false
+        else unknownMul nm maxCost sqDiv rest cost len false
+      else if nm then
+        match ckAdd cost Gen.MUL_COST_PER_OP with
+        | .error e => .error e
+        | .ok cost1 =>
+          match ckAdd l0 len with
+          | .error e => .error e
+          | .ok s =>
+            match ckMul s Gen.MUL_LINEAR_COST_PER_BYTE with
+            | .error e => .error e
+            | .ok lin =>
+              match ckAdd cost1 lin with
+              | .error e => .error e
+              | .ok cost2 =>
+                match ckMul l0 len with
+                | .error e => .error e
+                | .ok sq =>
+                  match ckAdd cost2 (sq / sqDiv) with
+                  | .error e => .error e
+                  | .ok cost3 =>
+                    match checkCost cost3 maxCost with
+                    | .error e => .error e
+                    | .ok () => unknownMul nm maxCost sqDiv rest cost3 (l0 + len) false
+      else
+        let cost3 := cost + Gen.MUL_COST_PER_OP + (l0 + len) * Gen.MUL_LINEAR_COST_PER_BYTE + (l0 * len) / sqDiv
+        match checkCost cost3 maxCost with
+        | .error e => .error e
+        | .ok () => unknownMul nm maxCost sqDiv rest cost3 (l0 + len) false := rfl
+
+theorem unknownMul_req (nm : Bool) (maxCost sqDiv : Nat) {l l' : List Val} (h : ListReq l l') (cost l0 : Nat)
+    (fi : Bool) :
+    unknownMul nm maxCost sqDiv l cost l0 fi = unknownMul nm maxCost sqDiv l' cost l0 fi := by
+  induction h generalizing cost l0 fi with
+  | nil => rfl
+  | cons hx _ ih => simp only [unknownMul_cons, atomLen_req hx, ih]
+
+theorem unknownConcat_req (maxCost : Nat) {l l' : List Val} (h : ListReq l l') (cost : Nat) :
+    unknownConcat maxCost l cost = unknownConcat maxCost l' cost := by
+  induction h generalizing cost with
+  | nil => rfl
+  | cons hx _ ih => simp only [unknownConcat, atomLen_req hx, ih]
+
+theorem opUnknown_repr (op : Bytes) : OpRepr true (opUnknown op) := opRepr_of_eq fun flags m a a' c h => by
+  have hl := argList_req h
+  simp only [opUnknown, unknownArith_req _ _ hl, unknownMul_req _ _ _ hl, unknownConcat_req _ hl]
+
+/-! ### sha256 -/
+
+theorem sha256Loop_req (cpa cpb maxCost : Nat) {l l' : List Val} (h : ListReq l l') (cost : Nat) (acc : Bytes) :
+    sha256Loop cpa cpb maxCost l cost acc = sha256Loop cpa cpb maxCost l' cost acc := by
+  induction h generalizing cost acc with
+  | nil => rfl
+  | cons hx _ ih => simp only [sha256Loop, atomBytes_req hx, ih]
+
+/-- on an atom argument list (no arguments) the `input == NIL` shortcut, the fast path and the
+loop all give the hash of the empty string at the base cost -/
+theorem opSha256_atom (cfg : Cfg) (flags m : Nat) (b : Bytes) (t : Bool) (c : Ctr) :
+    opSha256 cfg flags m (.atom b t) c = opSha256 cfg flags m (.atom b false) c := by
+  obtain ⟨fp⟩ := cfg
+  cases fp <;> cases t <;> cases b <;> rfl
+
+theorem matchArgs_req {a a' : Val} (h : Req a a') (n : Nat) :
+    (matchArgs n a = none ∧ matchArgs n a' = none) ∨
+    (∃ l l', matchArgs n a = some l ∧ matchArgs n a' = some l' ∧ ListReq l l') := by
+  have hl := argList_req h
+  have hlen := hl.length_eq
+  unfold matchArgs
+  simp only [hlen]
+  by_cases hn : ((argList a').length == n) = true
+  · simp only [hn, if_true]; exact .inr ⟨_, _, rfl, rfl, hl⟩
+  · simp only [hn]; exact .inl ⟨rfl, rfl⟩
+
+theorem opSha256_repr (cfg : Cfg) : OpRepr true (opSha256 cfg) := opRepr_of_eq fun flags m a a' c h => by
+  cases h.cases with
+  | atom b t t' _ _ => rw [opSha256_atom, opSha256_atom cfg flags m b t']
+  | pair l r l' r' hl hr =>
+    have hargs := argList_req h
+    unfold opSha256
+    simp only [Val.isNilPtr, Bool.false_eq_true, if_false, sha256Loop_req _ _ _ hargs]
+    rcases matchArgs_req h 2 with ⟨h1, h2⟩ | ⟨l1, l2, h1, h2, hl12⟩
+    · rw [h1, h2]
+    · rw [h1, h2]
+      match l1, l2, hl12 with
+      | [], [], _ => rfl
+      | [_], [_], .cons _ .nil => rfl
+      | [x, y], [x', y'], .cons hx (.cons hy .nil) => simp only [smallNumber_req hx, smallNumber_req hy]
+      | _ :: _ :: _ :: _, _ :: _ :: _ :: _, .cons _ (.cons _ (.cons _ _)) => rfl
+
+/-! ### comparison -/
+
+theorem opGr_repr (cfg : Cfg) : OpRepr true (opGr cfg) := opRepr_of_eq fun flags m a a' c h => by
+  unfold opGr
+  rcases (getArgs2_req h ">").cases' with ⟨e, h1, h2⟩ | ⟨⟨x, y⟩, ⟨x', y'⟩, h1, h2, hx, hy⟩
+  · rw [h1, h2]
+  · rw [h1, h2]; simp only [smallNumber_req hx, smallNumber_req hy, intAtom_req hx, intAtom_req hy]
+
+/-! ### concat -/
+
+theorem concatLoop_req (maxCost : Nat) {l l' : List Val} (h : ListReq l l') (cost totalSize : Nat)
+    {terms terms' : List Val} (ht : ListReq terms terms') :
+    ArgsRel (fun r r' => r.1 = r'.1 ∧ r.2.1 = r'.2.1 ∧ ListReq r.2.2 r'.2.2)
+      (concatLoop maxCost l cost totalSize terms) (concatLoop maxCost l' cost totalSize terms') := by
+  induction h generalizing cost totalSize terms terms' with
+  | nil =>
+    simp only [concatLoop]
+    refine .ok _ _ ⟨rfl, rfl, ?_⟩
+    exact ListReq.reverse ht
+  | cons hx _ ih =>
+    cases hx.cases with
+    | pair _ _ _ _ _ _ => simp only [concatLoop]; exact .err _
+    | atom b t t' _ _ =>
+      simp only [concatLoop]
+      split
+      · exact .err _
+      · split
+        · exact ih _ _ (.cons hx ht)
+        · exact ih _ _ ht
+
 end Clvm.Interp
